@@ -377,6 +377,16 @@ class TaggedUnionConverter(UnionConverter):
             (t, c) = self.external 
             return f"{mapping} {repr(t)} => {tag}, {repr(c)} => {obj}"
 
+    def _variant_converter(self, val: t.Any) -> t.Optional[Converter[t.Any]]:
+        """
+        Return the converter of the variant `val` is already an instance of, if any.
+        (`try_convert` is idempotent; an enclosing union relies on that to serialize a variant in tagged form)
+        """
+        for (ty, conv) in zip(self.types, self.converters):
+            if isinstance(ty, type) and isinstance(val, ty):
+                return conv
+        return None
+
     def into_data(self, val: t.Any) -> DataType:
         """See [`Converter.into_data`][pane.converters.Converter.into_data]"""
         tag = getattr(val, self.tag)
@@ -393,6 +403,9 @@ class TaggedUnionConverter(UnionConverter):
 
     def try_convert(self, val: t.Any) -> t.Any:
         """See [`Converter.try_convert`][pane.converters.Converter.try_convert]"""
+        conv = self._variant_converter(val)
+        if conv is not None:
+            return conv.try_convert(val)
         if not data_is_mapping(val):
             raise ParseInterrupt()
         val = t.cast(t.Dict[str, t.Any], val)
@@ -426,6 +439,9 @@ class TaggedUnionConverter(UnionConverter):
 
     def collect_errors(self, val: t.Any) -> t.Optional[ErrorNode]:
         """See [`Converter.collect_errors`][pane.converters.Converter.collect_errors]"""
+        conv = self._variant_converter(val)
+        if conv is not None:
+            return conv.collect_errors(val)
         if not data_is_mapping(val):
             return WrongTypeError(self.expected(), val)
         val = t.cast(t.Dict[str, t.Any], val)
